@@ -52,7 +52,12 @@ func methodsFor(size int) []string {
 		"rd 1 1 1 1 1 1 1 1 1 1 1 1", "rd 2 100 100", "rd 0 3 100 100", "rd 100 100", "rd 1", "rd",
 		fmt.Sprintf("cc %d iw", z+1), "cc 9 cr 1 2 50", "cc 9 ra 1 2", "cc 9 cs rd 3 3 3",
 		"cs iw", "cs bs 9", "cs ra 1 2", "cs ra 0 0", "cs cr 0 2 50", "cs cr 1 1 50", fmt.Sprintf("cs cr %d 1 5", z+1), "cs cr -1 1 2", "cs cr 0 3 1",
-		"cs rd 2 100 100", "cs rd 1 1", "cs cc 9 iw", "cs cs bs 9"}
+		"cs rd 2 100 100", "cs rd 1 1", "cs cc 9 iw", "cs cs bs 9",
+		// decorated buffers: WithTask (modelled) and a pass-through error handler (oracle only)
+		"wt iw", "wt ra 1 2", "wt bs 9", "wt cr 0 2 50", "wt cr 1 1 50", "wt cr 0 64 1", "wt rd 2 100 100", "wt rd 1 1 1 1 1 1 1 1",
+		"wt cc 9 cr 0 2 50", "wt cs cr 0 2 50", "cs wt rd 2 100 100", "wt wt cr 0 3 50", "wt cs wt bs 9",
+		"eh iw", "eh ra 1 2", "eh bs 9", "eh cr 0 2 50", "eh cr 1 1 50", "eh rd 2 100 100", "eh rd 1 1 1 1 1 1 1 1",
+		"eh cs cr 0 2 50", "eh cc 9 rd 3 3 3", "wt eh cr 0 2 50", "eh wt rd 2 100 100"}
 	if z > 0 {
 		ms = append(ms, fmt.Sprintf("bs %d", z-1), fmt.Sprintf("cc %d bs 9", z-1), fmt.Sprintf("cs bs %d", z-1))
 	}
@@ -191,10 +196,14 @@ func genMethod(r *hx.Rand, size, depth int) string {
 			sz = append(sz, "100000", "100000", "100000", "100000")
 		}
 		return strings.TrimSpace("rd " + strings.Join(sz, " "))
-	case x < 86 && depth > 0:
+	case x < 82 && depth > 0:
 		return fmt.Sprintf("cc %d %s", r.PickInt(size, size+1, 1<<20, near()), genMethod(r, size, depth-1))
-	case depth > 0:
+	case x < 88 && depth > 0:
 		return "cs " + genMethod(r, size, depth-1)
+	case x < 96 && depth > 0:
+		return "wt " + genMethod(r, size, depth-1)
+	case depth > 0:
+		return "eh " + genMethod(r, size, depth-1)
 	}
 	return "iw"
 }
@@ -284,6 +293,12 @@ func canonical(e *env) {
 		// GITSHA1: the hasher is seeded with the digest's size
 		buildScript(git, [][]byte{b("abcd")}, 5, true, 13, "slice", "iw"),
 		buildScript(git, nil, 0, true, 3, "reader s eof", "bs 0"),
+		// decorated buffers must validate exactly like the bare ones
+		buildScript(sha, [][]byte{b("ab"), b("cd")}, 4, false, 13, "reader s eof", "wt cr 0 2 50"),
+		buildScript(sha, [][]byte{b("ab"), b("cd"), b("e")}, 4, true, 13, "chunks eof", "wt rd 100 100"),
+		buildScript(sha, [][]byte{b("ab"), b("c")}, 4, true, 13, "chunks eof", "wt cs cr 0 2 50"),
+		buildScript(sha, [][]byte{b("ab"), b("cd")}, 4, false, 13, "chunks eof", "eh cr 0 2 50"),
+		buildScript(sha, [][]byte{b("ab"), b("cd")}, 4, false, 13, "reader j eof", "eh rd 100 100"),
 	}
 	for i, s := range cases {
 		e.handle(fmt.Sprintf("canonical/%d", i), s, "canonical")
